@@ -192,7 +192,7 @@ def run(ctx):
                        "are hand-modelled and tied by correspondence")
     ctx.assumes.append("ncontrols >= 1 and len(ctrl_state) == ncontrols (the constructor enforces the latter); tensor data are "
                        "ring elements (exact arithmetic); the prepare vector x is real")
-    ctx.lib(["GateNet/GateNetCheck", "GateNet/GateNetProofs"])
+    ctx.lib(["GateNet/GateNetCheck", "GateNet/GateNetProofs", "TN/TNEinsumPort"])
     ctx.log("library built")
     ok_tr = ctx.translate("GenGateNet", gen_gatenet.generate)
     if ok_tr:
